@@ -118,7 +118,7 @@ func runC14(r *Run) {
 	rr := r.Rng
 	n := 4000
 	if r.Thorough() {
-		n = 40000
+		n = 100000
 	}
 	s1 := Val{K: "struct", T: "S1", M: []KV{{K: "Name", V: VStr("n")}, {K: "Age", V: VInt("int", 0)}, {K: "Plain", V: VStr("")}, {K: "hidden", V: VStr("")}, {K: "Skip", V: VInt("int", 0)}, {K: "sec", V: VInt("int", 0)}}}
 	_ = s1
